@@ -14,7 +14,7 @@ import Bermuda.Lemmas.Join
 import Bermuda.Lemmas.Units
 import Bermuda.Lemmas.JsonIOGroup
 namespace Bermuda.Frame
-open Bermuda Bermuda.Spec.C14 Std
+open Bermuda Bermuda.Spec.C14 Std Bermuda.GroupL
 
 /-! ### first-appearance unions (`addNew`) -/
 
